@@ -289,6 +289,11 @@ func tokenizeForSemantics(content string) []semanticToken {
 	header := headerNone
 	prefixStage := prefixAfterDate
 	prevEnd := -1
+	// An amount's commodity may be a lower-case word after the quantity ("1.5 hours @ $20").
+	// The lexer reads such a word, and whatever follows it, as free text; the parser takes
+	// the word as the commodity and lexes the rest again, and so must this function.
+	prevWasNumber := false
+	amountHasCommodity := false
 
 	for {
 		tok := lexer.Next()
@@ -300,6 +305,8 @@ func tokenizeForSemantics(content string) []semanticToken {
 			currentLine = tok.Pos.Line
 			isPayee = false
 			header = headerNone
+			prevWasNumber = false
+			amountHasCommodity = false
 			if tok.Type == parser.TokenDirective {
 				inDirective = true
 				directiveType = tok.Value
@@ -348,6 +355,21 @@ func tokenizeForSemantics(content string) []semanticToken {
 				}
 			}
 		}
+
+		switch tok.Type {
+		case parser.TokenCommodity:
+			amountHasCommodity = true
+		case parser.TokenAt, parser.TokenAtAt, parser.TokenEquals, parser.TokenDoubleEquals:
+			amountHasCommodity = false // the amount of a cost or an assertion begins
+		case parser.TokenText:
+			if prevWasNumber && !amountHasCommodity && !inDirective && header == headerNone {
+				if fields := strings.Fields(tok.Value); len(fields) > 0 && isCommodityWord(fields[0]) {
+					tok = lexer.RescanWord(tok)
+					amountHasCommodity = true
+				}
+			}
+		}
+		prevWasNumber = tok.Type == parser.TokenNumber
 
 		prevEnd = tok.End.Offset
 
@@ -434,6 +456,20 @@ func tokenLength(tok parser.Token) uint32 {
 		return uint32(tok.End.Column - tok.Pos.Column)
 	}
 	return uint32(lsputil.UTF16Len(tok.Value))
+}
+
+// isCommodityWord reports whether a word can be an unquoted commodity symbol written
+// after the quantity: letters and digits with at least one letter (the parser's rule).
+func isCommodityWord(word string) bool {
+	hasLetter := false
+	for _, r := range word {
+		if unicode.IsLetter(r) {
+			hasLetter = true
+		} else if !unicode.IsDigit(r) {
+			return false
+		}
+	}
+	return hasLetter
 }
 
 func extractTagTokensFromComment(tok parser.Token) []semanticToken {
